@@ -324,3 +324,10 @@ func init() {
 	prop("C10", "C10-R6")
 	prop("C09", "C10-R6")
 }
+
+func init() {
+	prop("C03", "C03-R7")
+	prop("C05", "C03-R7")
+	prop("C07", "C03-R7")
+	prop("C02", "C03-R7")
+}
